@@ -332,10 +332,13 @@ def receiveFragment (before : FragCtx) (data : Bytes) : M FragCtx := do
   -- repaired code: a fragment that is rejected or discarded neither commits the conversation to its
   -- protocol version nor binds it to the instance it names
   let unbind : M Unit := modc fun c =>
-    { c with version := if c0.version.isNone then none else c.version, theirTag := c0.theirTag }
+    { c with version := if c0.version.isNone then none else c.version,
+             ourCurrentKey := if c0.version.isNone then c0.ourCurrentKey else c.ourCurrentKey,
+             theirTag := c0.theirTag }
   let (body, ignore, ok1) ← parseFragmentPrefix data
   let parsed := parseFragment body
   if ignore then do
+    unbind
     msgEvent evOtherInstance
     return before
   match ok1, parsed with
@@ -1230,9 +1233,13 @@ def receiveDecodedCore (K : Crypto) (message : Bytes) : M (Option Bytes × List 
       let (p, ts, err) ← receiveDataMessage K header body
       return (p, ts, err, msgStateBefore != .encrypted)
     else do
+      let kind (c : Conv) : Nat := match c.ake with | some a => a.state.toNat | none => 0
+      let stateBefore := kind (← getc)
       let (msgs, err) ← processAKE K msgType body
       if err.isSome then msgEventErr evSetupError
-      return (none, msgs, err, false)
+      -- a key exchange message that is not expected in the current state is ignored: no reply, no step
+      -- of the exchange - and, like a rejected one, no commitment to its version or sender
+      return (none, msgs, err, err.isNone && msgs.isEmpty && kind (← getc) == stateBefore)
 
 /-- receiveDecoded (repaired code): a message that is rejected neither commits the conversation to its
     protocol version nor binds it to the instance it names -/
@@ -1240,7 +1247,9 @@ def receiveDecoded (K : Crypto) (message : Bytes) : M (Option Bytes × List Byte
   let c0 ← getc
   let (p, ts, err, rejectedData) ← receiveDecodedCore K message
   if err.isSome || rejectedData then
-    modc fun c => { c with version := if c0.version.isNone then none else c.version, theirTag := c0.theirTag }
+    modc fun c => { c with version := if c0.version.isNone then none else c.version,
+                           ourCurrentKey := if c0.version.isNone then c0.ourCurrentKey else c.ourCurrentKey,
+                           theirTag := c0.theirTag }
   return (p, ts, err)
 
 def isWithin (t : Option Nat) (nowT : Nat) : Bool :=
